@@ -1,6 +1,7 @@
 package types
 
 import (
+	"crypto/ed25519"
 	"bytes"
 	"crypto/md5"
 	"crypto/sha1"
@@ -296,10 +297,14 @@ func GenerateReDKGMessage(messages []storage.Message, newCommPubKeys map[string]
 				})
 			}
 		}
-		// A reinitialisation replays the key generation. Messages of the signing phase are left
-		// out wherever they stand: a dump holds whatever was posted to the board, also a signing
-		// proposal that every node refused while the key generation was still under way, and
-		// stopping at the first one would cut the rest of the key generation off.
+		// A reinitialisation replays the key generation: the dump is read up to the round's first
+		// signing proposal, and what comes after it (later rounds' proposals included) plays no
+		// part. A dump holds whatever was posted to the board, though: a line under that event's
+		// name ends the key generation only if it is a signing proposal for this round that one of
+		// its participants signed. Other messages of the signing phase are left out.
+		if fsm.Event(msg.Event) == signing_proposal_fsm.EventSigningStart && isSigningProposalOf(&reDKG, msg) {
+			break
+		}
 		if IsSigningPhaseEvent(fsm.Event(msg.Event)) {
 			continue
 		}
@@ -308,6 +313,24 @@ func GenerateReDKGMessage(messages []storage.Message, newCommPubKeys map[string]
 	}
 
 	return &reDKG, nil
+}
+
+// isSigningProposalOf reports whether msg is a signing proposal for the round collected in reDKG,
+// signed by one of the round's participants (with the key its opening proposal registers).
+func isSigningProposalOf(reDKG *ReDKG, msg storage.Message) bool {
+	if reDKG.DKGID == "" || msg.DkgRoundID != reDKG.DKGID {
+		return false
+	}
+	var proposal requests.SigningBatchProposalStartRequest
+	if err := json.Unmarshal(msg.Data, &proposal); err != nil || proposal.BatchID == "" || len(proposal.SigningTasks) == 0 {
+		return false
+	}
+	for _, p := range reDKG.Participants {
+		if p.Name == msg.SenderAddr && len(p.OldCommPubKey) == ed25519.PublicKeySize && msg.Verify(p.OldCommPubKey) {
+			return true
+		}
+	}
+	return false
 }
 
 // IsSigningPhaseEvent tells the messages that belong to signing (proposals, partial signatures,
